@@ -177,13 +177,23 @@ def audit_coq():
     return problems
 
 
-def property_assumptions(prop_id):
-    """Compile Properties/<id>.v on its own and parse every `Print Assumptions` block.
-    Returns (theorems: [{name, assumptions:[...]}], raw)."""
-    rel = "theories/Properties/%s.v" % prop_id
+def property_assumptions(prop_id, files=None):
+    """Compile each property file on its own and parse every `Print Assumptions` block."""
+    files = files or ["theories/Properties/%s.v" % prop_id]
+    merged = {"theorems": [], "printed": [], "rc": 0, "raw": ""}
+    for rel in files:
+        r = property_assumptions_file(rel)
+        merged["theorems"] += r["theorems"]
+        merged["printed"] += r["printed"]
+        merged["rc"] = merged["rc"] or r["rc"]
+        merged["raw"] += r["raw"][-1500:]
+    return merged
+
+
+def property_assumptions_file(rel):
     path = os.path.join(COQ, rel)
     if not os.path.exists(path):
-        return [], ""
+        return {"theorems": [], "printed": [], "rc": 1, "raw": "missing " + rel}
     src = open(path).read()
     names = re.findall(r"^\s*(?:Theorem|Corollary|Lemma)\s+([A-Za-z0-9_']+)", src, re.M)
     printed = re.findall(r"Print Assumptions\s+([A-Za-z0-9_'.]+)\s*\.", src)
@@ -383,13 +393,13 @@ def standard_check(res, vh_cmd, n_cases, prop_files, model_files, theorem_note, 
     for f in model_files:
         model_needs |= coq_deps(f)
     model_broken = proof_status(build, prop, sorted(model_needs))
-    pa = property_assumptions(prop) if not broken else {"theorems": [], "printed": [], "rc": 1, "raw": ""}
+    pa = property_assumptions(prop, [f for f in prop_files if "/Properties/" in f]) if not broken else {"theorems": [], "printed": [], "rc": 1, "raw": ""}
     bad_ax = []
     for b in pa["printed"]:
         for a in b["assumptions"]:
             if a.split(".")[-1] not in {x.split(".")[-1] for x in ALLOWED_AXIOMS}:
                 bad_ax.append("%s depends on %s" % (b["name"], a))
-    obligations = len(pa["printed"]) if not broken else len(re.findall(r"Print Assumptions", open(os.path.join(COQ, "theories/Properties/%s.v" % prop)).read()))
+    obligations = len(pa["printed"]) if not broken else sum(len(re.findall(r"Print Assumptions", open(os.path.join(COQ, f)).read())) for f in prop_files if os.path.exists(os.path.join(COQ, f)))
     discharged = 0 if broken else len([b for b in pa["printed"]])
 
     rc, out = build_harness(vh_bin, build_flags)
